@@ -584,6 +584,18 @@ func checkKV(w *World, c *Check, pr *prover) {
 										}
 									}
 								}
+								// the whole pair is handed over and taken apart in the helper
+								takesPair := false
+								for _, a := range call.Common().Args {
+									if namedOf(a.Type()) == kvT {
+										takesPair = true
+									}
+								}
+								if takesPair {
+									if s := srcSlot(st.Val); s != "" {
+										decOK[fname] = s
+									}
+								}
 							}
 						}
 					}
